@@ -59,8 +59,8 @@ def run(ctx):
     nprog = 0
     for (label, opts, n, levels) in [
             ('core', dict(signed=False, shorts=False), 500 if quick else 12000, ['-O0', '-O1']),
-            ('full', dict(), 250 if quick else 8000, ['-O0'] if quick else ['-O0', '-O1']),
-            ('bait', dict(bait=True, inline=True), 150 if quick else 4000, ['-O1'])]:
+            ('full', dict(bait=True, bait_p=0.15), 250 if quick else 8000, ['-O0'] if quick else ['-O0', '-O1']),
+            ('bait', dict(bait=True, inline=True, shorts='always', bait_p=0.4), 200 if quick else 5000, ['-O1'] if quick else ['-O0', '-O1'])]:
         progs = {'%s%d' % (label, i): gen_program(rng, opts) for i in range(n)}
         nprog += len(progs)
         for O in levels:
